@@ -203,6 +203,10 @@ func (en *Engine) symCopy(st *State, dst SliceV, srcLen *Term, srcElem func(i *T
 
 func (en *Engine) callFunction(st *State, f *Frame, x *ssa.Call, fn *ssa.Function, bind []Value, args []Value, pos string) []*State {
 	name := calleeName(fn)
+	if en.initMode && isInitFunc(fn) && len(args) == 0 && (fn.Pkg == nil || !modulePkg(fn.Pkg.Pkg.Path()) || fn.Name() == "init") {
+		f.env[x] = nil // initialisers of other packages run on their own
+		return nil
+	}
 	if r, ok := en.intrinsic(st, f, x, fn, name, args, pos); ok {
 		return r
 	}
